@@ -81,6 +81,8 @@ type scripted struct {
 	wantG bool
 	// keepData: the delivered bytes are recorded with every read (persistent sources)
 	keepData bool
+	max      int  // > 0: cap on every read after the steps
+	cycle    bool // data wraps around instead of ending
 }
 
 func newScripted(s *plan.Src, lock bool) *scripted {
@@ -88,7 +90,7 @@ func newScripted(s *plan.Src, lock bool) *scripted {
 	if err != nil {
 		panic(err)
 	}
-	return &scripted{data: d, steps: s.Steps, lock: lock, wantG: lock}
+	return &scripted{data: d, steps: s.Steps, lock: lock, wantG: lock, max: s.Max, cycle: s.Cycle && len(d) > 0}
 }
 
 // tempErr is a transient-looking error (net.Error shape).
@@ -180,6 +182,12 @@ func (s *scripted) Read(p []byte) (int, error) {
 			st.N -= len(p)
 		}
 	}
+	if s.si >= len(s.steps) && stepErr == "" && s.max > 0 && want > s.max {
+		want = s.max
+	}
+	if s.cycle && s.off == len(s.data) {
+		s.off = 0
+	}
 	if rem := len(s.data) - s.off; want > rem {
 		want = rem
 		if rem == 0 && stepErr == "" {
@@ -202,7 +210,9 @@ func (s *scripted) Read(p []byte) (int, error) {
 	if !s.keepData {
 		ev.D = ""
 	}
-	s.log = append(s.log, ev)
+	if !s.cycle || len(s.log) < 1<<12 {
+		s.log = append(s.log, ev)
+	}
 	if stepErr == "panic-string" {
 		// the same with a panic value that is not an error
 		panic("verif: the scripted source panicked inside Read (string value)")
